@@ -9,16 +9,27 @@ const pageSize = 4096
 
 // faultAlloc maps whole pages plus one trailing guard page and returns the
 // mapping and the window of c bytes that ends right at the guard page.
+// It returns nil, nil when the kernel refuses (too many mappings): the caller
+// falls back to ordinary memory for that region.
 func faultAlloc(c int) (mapping, window []byte) {
 	body := (c + pageSize - 1) &^ (pageSize - 1)
 	m, err := syscall.Mmap(-1, 0, body+pageSize, syscall.PROT_READ|syscall.PROT_WRITE, syscall.MAP_ANON|syscall.MAP_PRIVATE)
 	if err != nil {
-		panic(fmt.Sprintf("guardalloc: mmap %d: %v", body+pageSize, err))
+		return nil, nil
 	}
 	if err := syscall.Mprotect(m[body:], syscall.PROT_NONE); err != nil {
-		panic(fmt.Sprintf("guardalloc: mprotect guard: %v", err))
+		_ = syscall.Munmap(m)
+		return nil, nil
 	}
 	return m, m[body-c : body : body]
+}
+
+// faultKeep is for a mapping that stays accessible for ever: its guard page
+// is opened so that the kernel can merge it with its neighbours.
+func faultKeep(m []byte) {
+	if len(m) > pageSize {
+		_ = syscall.Mprotect(m[len(m)-pageSize:], syscall.PROT_READ|syscall.PROT_WRITE)
+	}
 }
 
 // faultProtect makes a freed mapping inaccessible and gives its pages back.
